@@ -19,6 +19,9 @@ import PdfVerif.Gen.Filters
 namespace PdfVerif.Filters
 open PdfVerif PdfVerif.Gen.Filters
 
+-- translated straight-line code used by name in this model (round 6)
+export PdfVerif.Gen.Filters (nbitsAfter pngNbytes pngBpp)
+
 inductive Err
   | binascii          -- binascii.Error
   | valueError        -- ValueError
@@ -70,9 +73,10 @@ def unhexlify : Bytes → Except Err Bytes
 
 def asciihexdecode (data : Bytes) : Except Err Bytes :=
   let d := data.filter (fun b => !isWs b)          -- bws_re.sub(b"", data)
-  let t := d.takeWhile (fun b => b != 62)          -- data[:data.find(b">")]
+  -- `AHX_EOD` (`b">"`), `ahxNeedsPad` (`idx % 2 == 1`), `AHX_PAD` (`b"0"`) are translated from ascii85.py
+  let t := d.takeWhile (fun b => [b] != AHX_EOD)   -- data[:data.find(b">")]
   if t.length < d.length then
-    unhexlify (if t.length % 2 == 1 then t ++ [48] else t)
+    unhexlify (if ahxNeedsPad t.length then t ++ AHX_PAD else t)
   else unhexlify d
 
 /-! ## ASCII85Decode -/
@@ -130,10 +134,11 @@ def a85loop : List Nat → Bytes → Except Err (Bytes × List Nat)
     else .error .valueError                                -- 'Non-Ascii85 digit found'
 
 def a85decode (b : Bytes) : Except Err Bytes :=
-  match a85loop [] (b ++ [117, 117, 117, 117]) with
+  -- `A85_PAD` (`b'u' * 4`) and `a85Padding` (`4 - len(curr)`) are translated from CPython's base64.py
+  match a85loop [] (b ++ A85_PAD) with
   | .error e => .error e
   | .ok (res, curr) =>
-    let padding := 4 - curr.length
+    let padding := a85Padding curr.length
     .ok (if padding != 0 then res.take (res.length - padding) else res)
 
 def ascii85decode (data : Bytes) : Except Err Bytes :=
@@ -145,9 +150,11 @@ def rldecodeAux : Nat → Bytes → Except Err Bytes
   | 0, _ => .ok []
   | _ + 1, [] => .ok []                                     -- next(data_iter, 128)
   | fuel + 1, l :: rest =>
-    if l == 128 then .ok []
-    else if l.toNat < 128 then
-      let n := l.toNat + 1
+    -- the EOD byte, the two tests and the two counts are translated from runlength.py (`Gen.Filters`);
+    -- `rl_translated` proves that the two tests exhaust the non-EOD bytes and `RL_EOF_DEFAULT = RL_EOD`
+    if l.toNat = RL_EOD then .ok []
+    else if rlIsLiteral l.toNat then
+      let n := rlLiteralCount l.toNat
       if rest.length < n then .error .runtimeError          -- StopIteration inside the generator expression
       else match rldecodeAux fuel (rest.drop n) with
         | .ok r => .ok (rest.take n ++ r)
@@ -157,7 +164,7 @@ def rldecodeAux : Nat → Bytes → Except Err Bytes
       | [] => .error .stopIteration
       | b :: rest' =>
         match rldecodeAux fuel rest' with
-        | .ok r => .ok (List.replicate (257 - l.toNat) b ++ r)
+        | .ok r => .ok (List.replicate (rlRepeatCount l.toNat) b ++ r)
         | .error e => .error e
 
 def rldecode (data : Bytes) : Except Err Bytes := rldecodeAux (data.length + 1) data
@@ -186,32 +193,33 @@ structure LzwSt where
   ext : List Bytes
   prev : Option Bytes
 
-def lzwInit : LzwSt := { nbits := 9, init := false, ext := [], prev := none }
+-- round 6: the constants below (`LZW_*`) are translated from lzw.py (`Gen.Filters`); `Lemmas/FiltersLit.lean`
+-- states the same functions with the literals written out
+def lzwInit : LzwSt := { nbits := LZW_INIT_NBITS, init := false, ext := [], prev := none }
 
-def tableLen (st : LzwSt) : Nat := if st.init then 258 + st.ext.length else 0
+def tableLen (st : LzwSt) : Nat := if st.init then LZW_FIRST_FREE + st.ext.length else 0
 
 /-- `self.table[code]`; `none` = IndexError. -/
 def tableGet (st : LzwSt) (code : Nat) : Option Bytes :=
   if !st.init then none
-  else if code < 256 then some [UInt8.ofNat code]
-  else if code < 258 then none
-  else st.ext[code - 258]?
+  else if code < LZW_LITERALS then some [UInt8.ofNat code]
+  else if code < LZW_FIRST_FREE then none
+  else st.ext[code - LZW_FIRST_FREE]?
 
 inductive FeedRes
   | ok (st : LzwSt) (x : Bytes)
   | corrupt
   | indexError
 
-def nbitsAfter (nbits tableLength : Nat) : Nat :=
-  if tableLength == 511 then 10 else if tableLength == 1023 then 11 else if tableLength == 2047 then 12 else nbits
+-- `nbitsAfter` (the code-width schedule at the end of `feed`) is translated: `Gen.Filters.nbitsAfter`.
 
 def feedGrow (st : LzwSt) (entry x : Bytes) : FeedRes :=
   let ext' := st.ext ++ [entry]
-  .ok { st with ext := ext', nbits := nbitsAfter st.nbits (258 + ext'.length), prev := some x } x
+  .ok { st with ext := ext', nbits := nbitsAfter st.nbits (LZW_FIRST_FREE + ext'.length), prev := some x } x
 
 def feed (st : LzwSt) (code : Nat) : FeedRes :=
-  if code == 256 then .ok { nbits := 9, init := true, ext := [], prev := some [] } []
-  else if code == 257 then .ok st []
+  if code == LZW_CLEAR then .ok { nbits := LZW_NBITS_RESET, init := true, ext := [], prev := some [] } []
+  else if code == LZW_EOD then .ok st []
   else
     match st.prev with
     | none | some [] =>                                     -- `elif not self.prevbuf`
@@ -268,7 +276,7 @@ def lzwRunB : Nat → LzwSt → Bytes → Nat → Nat → Except Err Bytes
 
 /-- `lzwdecode`: `buff = 0`, `bpos = 8` initially. -/
 def lzwdecode (data : Bytes) : Except Err Bytes :=
-  lzwRunB (8 * data.length + 1) lzwInit data 0 8
+  lzwRunB (8 * data.length + 1) lzwInit data LZW_INIT_BUFF LZW_INIT_BPOS
 
 /-! ## Predictors -/
 
@@ -315,12 +323,11 @@ def pngRows (nbytes bpp : Nat) : Nat → Bytes → Bytes → Except Err Bytes
       | .ok r => .ok (raw ++ r)
       | .error e => .error e
 
-def pngNbytes (colors columns bpc : Nat) : Nat := (colors * columns * bpc + 7) / 8
-def pngBpp (colors bpc : Nat) : Nat := max 1 (colors * bpc / 8)
+-- `pngNbytes` (bytes per row) and `pngBpp` (bytes per pixel) are translated: `Gen.Filters.pngNbytes/pngBpp`.
 
 /-- `utils.apply_png_predictor` (the `pred` argument is unused by the code). -/
 def apply_png_predictor (colors columns bpc : Nat) (data : Bytes) : Except Err Bytes :=
-  if bpc != 8 && bpc != 1 then .error .pdfValue
+  if !PNG_BPC.contains bpc then .error .pdfValue           -- `bitspercomponent not in [8, 1]` (translated list)
   else
     pngRows (pngNbytes colors columns bpc) (pngBpp colors bpc) data.length
       (List.replicate (pngNbytes colors columns bpc) 0) data
@@ -341,9 +348,10 @@ def tiffRows (nbytes bpp : Nat) : Nat → Bytes → Except Err Bytes
       | .error e => .error e
 
 def apply_tiff_predictor (colors columns bpc : Nat) (data : Bytes) : Except Err Bytes :=
-  if bpc != 8 then .error .pdfValue
-  else if columns * colors == 0 then .error .valueError     -- range() arg 3 must not be zero
-  else tiffRows (columns * colors) colors data.length data
+  -- `TIFF_BPC`, `tiffBpp`, `tiffNbytes` are translated from utils.py
+  if bpc != TIFF_BPC then .error .pdfValue
+  else if tiffNbytes columns (tiffBpp colors bpc) == 0 then .error .valueError     -- range() arg 3 must not be zero
+  else tiffRows (tiffNbytes columns (tiffBpp colors bpc)) (tiffBpp colors bpc) data.length data
 
 /-! ## PDFStream.get_filters / decode -/
 
@@ -383,10 +391,14 @@ def applyPredictor (pr : Option Parms) (data : Bytes) : Except Err Bytes :=
     match p.predictor with
     | none => .ok data
     | some pred =>
-      if pred == 1 then .ok data
-      else if pred == 2 then apply_tiff_predictor (p.colors.getD 1) (p.columns.getD 1) (p.bpc.getD 8) data
-      else if pred ≥ 10 then apply_png_predictor (p.colors.getD 1) (p.columns.getD 1) (p.bpc.getD 8) data
-      else .error .pdfNotImplemented
+      -- `predKind` (the `pred == 1 / == 2 / >= 10 / else` chain) and the defaults are translated from pdftypes.py
+      match predKind pred with
+      | 0 => .ok data
+      | 1 => apply_tiff_predictor (p.colors.getD PRED_TIFF_DEFAULTS.1) (p.columns.getD PRED_TIFF_DEFAULTS.2.1)
+               (p.bpc.getD PRED_TIFF_DEFAULTS.2.2) data
+      | 2 => apply_png_predictor (p.colors.getD PRED_PNG_DEFAULTS.1) (p.columns.getD PRED_PNG_DEFAULTS.2.1)
+               (p.bpc.getD PRED_PNG_DEFAULTS.2.2) data
+      | _ => .error .pdfNotImplemented
 
 /-- One iteration of the `for f, params in filters` loop.  `inflate` stands for the Flate step
 (zlib, with the non-strict salvage path), supplied from outside. -/
@@ -460,5 +472,112 @@ def streamPayload (file : Bytes) (pos objlen : Nat) : Except Err Bytes :=
   match nextline (file.drop pos) with
   | none => .error .psEOF
   | some line => .ok ((file.drop (pos + line.length)).take objlen)
+
+/-! ## The whole `stream` branch (round 6): Length clamp, fallback mode, the `endstream` scan
+
+`streamRead` follows `PDFParser.do_keyword` line by line: `objlen` is `Length` (0 when the key is
+missing or the parser is in fallback mode) clamped to the file (`Gen.Filters.streamClamp`,
+translated); `data` is that many bytes after the keyword line; the `while 1` loop then reads lines
+until one contains `Gen.Filters.ENDSTREAM_MARK` (translated) or the input ends (PSEOF -> break);
+the bytes it passes over are appended to `data` only in fallback mode, and in both modes the parser
+is left (`self.seek(pos + objlen)`) just after them. -/
+
+/-- `bytes.startswith` on lists: is `pat` a prefix of `s`? -/
+def startsWith : Bytes → Bytes → Bool
+  | [], _ => true
+  | _ :: _, [] => false
+  | p :: ps, c :: cs => p == c && startsWith ps cs
+
+/-- `pat in s` / `s.index(pat)`: the index of the first occurrence. -/
+def findSub (pat : Bytes) : Bytes → Option Nat
+  | [] => if startsWith pat [] then some 0 else none
+  | c :: rest =>
+    if startsWith pat (c :: rest) then some 0
+    else match findSub pat rest with
+      | some i => some (i + 1)
+      | none => none
+
+/-- The `while 1` loop of the `stream` branch from the byte after the Length bytes: the bytes
+passed over before the end marker (whole lines, then the part of the marker's line before it). -/
+def scanEndstream : Nat → Bytes → Bytes
+  | 0, _ => []
+  | fuel + 1, s =>
+    match nextline s with
+    | none => []                                            -- PSEOF -> break
+    | some line =>
+      match findSub ENDSTREAM_MARK line with
+      | some i => line.take i
+      | none => line ++ scanEndstream fuel (s.drop line.length)
+
+/-- `objlen` after the clamp; `len = none` is a missing `Length` key (non-strict). -/
+def streamObjlen (fallback : Bool) (len : Option Int) (fileLen start : Nat) : Nat :=
+  (streamClamp (if fallback then 0 else len.getD 0) (Int.ofNat fileLen) (Int.ofNat start)).toNat
+
+/-- `PDFStream.rawdata` and the position the parser is left at, when the keyword `stream` stands
+at `pos`. -/
+def streamRead (fallback : Bool) (file : Bytes) (pos : Nat) (len : Option Int) : Except Err (Bytes × Nat) :=
+  match nextline (file.drop pos) with
+  | none => .error .psEOF
+  | some line =>
+    let start := pos + line.length
+    let objlen := streamObjlen fallback len file.length start
+    let data := (file.drop start).take objlen
+    let skipped := scanEndstream (file.length + 1) (file.drop (start + objlen))
+    .ok (if fallback then data ++ skipped else data, start + objlen + skipped.length)
+
+/-! ## `int_value(dic["Length"])`: direct, indirect, missing (round 6) -/
+
+/-- The value of the `Length` key as the parser sees it: an integer, an indirect reference, or any
+other object (`null`, a name, a string, …). -/
+inductive LenObj
+  | int (n : Int)
+  | ref (id : Nat)
+  | other
+  deriving DecidableEq, Repr
+
+/-- `resolve1` on a `Length` value.  `objs` is what `doc.getobj` returns (first entry of an id wins;
+no entry = `PDFObjectNotFound` -> `default` = None).  An id met a second time makes `resolve1`
+return `default` too, so following a reference may forget its id: the table shrinks, the loop ends. -/
+def resolveLen : Nat → List (Nat × LenObj) → LenObj → LenObj
+  | 0, _, _ => .other
+  | _ + 1, _, .int n => .int n
+  | _ + 1, _, .other => .other
+  | fuel + 1, objs, .ref id =>
+    match objs.find? (fun p => p.1 == id) with
+    | none => .other
+    | some p => resolveLen fuel (objs.filter (fun q => q.1 != id)) p.2
+
+/-- `int_value(dic["Length"])` (non-strict): `none` = the key is missing (KeyError, `objlen` stays 0
+in `do_keyword`), a non-integer gives 0. -/
+def lengthValue (objs : List (Nat × LenObj)) (v : Option LenObj) : Option Int :=
+  match v with
+  | none => none
+  | some x =>
+    match resolveLen (objs.length + 1) objs x with
+    | .int n => some n
+    | _ => some 0
+
+/-! ## `PDFStream.get_any` and the keys of `get_filters` (round 6) -/
+
+/-- `PDFStream.get_any(names)`: the value of the first of `names` that is a key of the stream
+dictionary (`attrs`: a dictionary, keys unique); `none` = the default. -/
+def getAny {α : Type} : List Bytes → List (Bytes × α) → Option α
+  | [], _ => none
+  | n :: ns, attrs =>
+    match attrs.find? (fun p => p.1 == n) with
+    | some p => some p.2
+    | none => getAny ns attrs
+
+/-- `PDFStream.get_filters` from the stream dictionary: `F` before `Filter`, `DP` before `DecodeParms`
+before `FDecodeParms` (`Gen.Filters.FILTER_KEYS` / `PARMS_KEYS`, translated); the defaults `[]` / `{}`
+behave like absent keys. -/
+def streamFilters (fattrs : List (Bytes × FilterVal)) (pattrs : List (Bytes × ParmsVal)) :
+    List (Bytes × Option Parms) :=
+  getFilters ((getAny FILTER_KEYS fattrs).getD .absent) ((getAny PARMS_KEYS pattrs).getD .absent)
+
+/-- `PDFStream.decode` from the stream dictionary (`get_filters` reads the keys). -/
+def streamDecodeDict (inflate : Bytes → Bytes) (fattrs : List (Bytes × FilterVal)) (pattrs : List (Bytes × ParmsVal))
+    (raw : Bytes) : Except Err Bytes :=
+  streamDecode inflate ((getAny FILTER_KEYS fattrs).getD .absent) ((getAny PARMS_KEYS pattrs).getD .absent) raw
 
 end PdfVerif.Filters
